@@ -124,7 +124,7 @@ func runC02(tier string) int {
 		return f
 	}
 	maxK, decoFor := 4, map[int]int{1: 1, 2: 3, 3: 3, 4: 2}
-	offsets := map[int][]int{3: {0, 1, 2, 3, 4, 5, 6, 7, 8, 9, 10, 11, 12, 13, 14, 15, 16, 17, 18, 19, 20, 21, 22, 23, 24, 25, 26, 27, 28, 29}, 4: {0, 9, 17}, 5: {0, 17}, 6: {4}}
+	offsets := map[int][]int{3: {0, 1, 2, 3, 4, 5, 6, 7, 8, 9, 10, 11, 12, 13, 14, 15, 16, 17, 18, 19, 20, 21, 22, 23, 24, 25, 26, 27, 28, 29, 30, 31, 32, 33}, 4: {0, 9, 17}, 5: {0, 17}, 6: {4}}
 	if tier == "thorough" {
 		maxK = 6
 		decoFor = map[int]int{1: 1, 2: 3, 3: 5, 4: 3, 5: 2, 6: 2}
@@ -169,6 +169,14 @@ func runC02(tier string) int {
 					f := make([]int, k)
 					for i := range f {
 						f[i] = 100 + op
+					}
+					jobs = append(jobs, job{k, si, t, f, true, 1})
+				}
+				// the same var compared with constants that are textual prefixes of one another (1, 10, 100), operators rotating
+				for op := 0; op < 6; op++ {
+					f := make([]int, k)
+					for i := range f {
+						f[i] = 200 + (op+i)%6
 					}
 					jobs = append(jobs, job{k, si, t, f, true, 1})
 				}
@@ -374,7 +382,7 @@ func runC02(tier string) int {
 	r.Assume("the generator's own expression tree is the reference (no parsing on the oracle side); '!' > '&&' > '||', left to right, short-circuit",
 		"lockstep: each operand read (which flag/var/trainer, strict or not) is an observable event; the environment answers with the operand's value and each side applies its own relation")
 	return r.Finish(r.Get("evaluations"), r.Get("nontrivial"),
-		"every And/Or tree with k leaves x decorations (redundant parentheses / negations on any node, bounded count) x leaf-form assignments (all 30 forms exhaustively for k<=2, rotations beyond, shared-operand variants for k<=3 incl. the same var test written once plainly and once with value()) x 13 condition positions in a script, plus the if/else position in the second inline script of a mapscripts statement and in the second inline entry of a table (if, if/else, elif positions, while, do...while, branches with an empty body, and positions in which the first operand test of the expression is tested again in a neighbouring condition) x optimize on/off; plus AutoVar command leaves (3 command kinds x 9 forms, alone and inside an &&/|| expression) in files whose constants are named like the configured result vars; plus chains of K leaves for every K up to the bound in the coverage in 5 operator patterns; each case explored in lockstep over all operand values; non-trivial = at least 2 leaves")
+		"every And/Or tree with k leaves x decorations (redundant parentheses / negations on any node, bounded count) x leaf-form assignments (all 34 forms - var against TRUE / FALSE included - exhaustively for k<=2, rotations beyond, shared-operand variants for k<=3 incl. the same var test written once plainly and once with value(), and one var compared with 1, 10 and 100) x 13 condition positions in a script, plus the if/else position in the second inline script of a mapscripts statement and in the second inline entry of a table (if, if/else, elif positions, while, do...while, branches with an empty body, and positions in which the first operand test of the expression is tested again in a neighbouring condition) x optimize on/off; plus AutoVar command leaves (3 command kinds x 9 forms, alone and inside an &&/|| expression) in files whose constants are named like the configured result vars; plus chains of K leaves for every K up to the bound in the coverage in 5 operator patterns; each case explored in lockstep over all operand values; non-trivial = at least 2 leaves")
 }
 
 // firstLeafCopy returns a fresh leaf condition equal to the first operand test evaluated by c (polarity as written in the leaf).
@@ -397,6 +405,15 @@ func sharedLeaf(form, i int) *model.Leaf {
 		} else {
 			lf.Src = fmt.Sprintf("var(V1) %s 3", syms[lf.Rel])
 		}
+		return lf
+	}
+	if form >= 200 {
+		// same var, operators rotating, constants whose decimal spellings are prefixes of one another
+		op := (form - 200) % 6
+		lf := model.LeafForm(18+op, 1)
+		syms := []string{"==", "!=", "<", "<=", ">", ">="}
+		lf.Const = []int{1, 10, 100, 12}[i%4]
+		lf.Src = fmt.Sprintf("var(V1) %s %d", syms[op], lf.Const)
 		return lf
 	}
 	lf := model.LeafForm(form, 1)
